@@ -186,15 +186,75 @@ def first_event_diff(a, b, sep=" ; "):
             return i, x, y
     return None
 
+# ----------------------------------------------------------------------------------------------
+# naming the theorems that no longer hold (the runner only knows that the module stopped building)
+# ----------------------------------------------------------------------------------------------
+DECL = re.compile(r"^\s*(?:@\[[^\]]*\]\s*)?(?:private\s+|protected\s+)?(theorem|lemma|def|abbrev|instance|example|structure|inductive)\b\s*([^\s:(\[{]*)")
+
+
+def failing_declarations(module):
+    """Rebuild the Lean module (same command as the proof step) and attribute every error to the declaration it is in.
+    Returns [{"name", "file", "line", "message"}]; names of property theorems are fully qualified."""
+    ok, out = C.lake_build([module])
+    if ok:
+        return []
+    found, cache = [], {}
+    lines = out.split("\n")
+    for i, l in enumerate(lines):
+        m = re.match(r"^error: (?:\./)?(\S+?\.lean):(\d+):(\d+): (.*)$", l)
+        if not m:
+            continue
+        rel, ln, msg = m.group(1), int(m.group(2)), m.group(4)
+        for k in lines[i + 1:i + 12]:
+            if re.match(r"^(error|warning|info|✖|⚠|✔|ℹ)", k) or k.startswith("Some required"):
+                break
+            msg += " " + k.strip()
+        path = rel if os.path.isabs(rel) else os.path.join(C.LEAN, rel)
+        if path not in cache:
+            try:
+                cache[path] = open(path).read().split("\n")
+            except OSError:
+                cache[path] = []
+        src, name, ns = cache[path], None, ""
+        for j in range(min(ln, len(src)) - 1, -1, -1):
+            d = DECL.match(src[j])
+            if d and name is None:
+                name = d.group(2) or "%s@%d" % (d.group(1), j + 1)
+            n = re.match(r"^namespace\s+(\S+)", src[j])
+            if n and name is not None:
+                ns = n.group(1)
+                break
+        full = (ns + "." + name) if ns and name and "@" not in name else (name or "?")
+        found.append({"name": full, "file": rel, "line": ln, "message": re.sub(r"\s+", " ", msg)[:600]})
+        # a private table lemma: the public theorems of the same file that are proved from it fail with it
+        if name and "@" not in name:
+            starts = [(j, DECL.match(src[j])) for j in range(len(src)) if DECL.match(src[j])]
+            for a, (j, d) in enumerate(starts):
+                end = starts[a + 1][0] if a + 1 < len(starts) else len(src)
+                user = d.group(2)
+                if user and user != name and j + 1 > ln and re.search(r"\b%s\b" % re.escape(name), "\n".join(src[j:end])):
+                    found.append({"name": (ns + "." + user) if ns else user, "file": rel, "line": j + 1,
+                                  "message": "proved from %s, which no longer holds" % full})
+    return found
+
 
 class Check(PropertyCheck):
     prop = "C20"
     module = "LLBuild.Props.C20"
-    theorems = ["LLBuild.CApi.C20_forwarding_faithful", "LLBuild.CApi.C20_bytes_preserved"]
+    theorems = ["LLBuild.CApi.C20_forwarding_faithful", "LLBuild.CApi.C20_bytes_preserved",
+                # callback direction (engine -> client): generated call-site table = documented table
+                "LLBuild.CApi.C20_callbacks_faithful", "LLBuild.CApi.C20_status_kinds_bijective", "LLBuild.CApi.C20_cycle_order_preserved",
+                "LLBuild.CApi.C20_callback_bytes_preserved", "LLBuild.CApi.C20_optional_callbacks_guarded"]
     extractors = ["x_capi"]
     harnesses = [("vc20", "plain"), ("vengine_capi", "plain")]
     assumptions = [
         "`documented` (LLBuild/Model/CApi.lean) is a faithful reading of the comments of core.h",
+        "`documentedCallback` / `documentedOptional` / `documentedStatus` / `documentedCycleArray` (LLBuild/Model/CApiCallbacks.lean) are a faithful "
+        "reading of core.h for the callback direction; core.h does not say which callbacks may be NULL: the defaults recorded for is_result_valid "
+        "(valid), update_status (nothing) and destroy_context (nothing) are those of the C++ interface and of the first-party Swift binding",
+        "callback direction: the theorems decide what the binding does AT each call site (callback, guard, argument order and shapes, status "
+        "mapping, cycle-array construction, return value); WHEN the engine invokes the C++ virtuals between the calls is the engine's behaviour "
+        "(C01-C07) and, for a C client, the sampled event stream",
         "the engine entry points themselves (TaskInterface::request / mustFollow / discoveredDependency / complete, BuildEngine::attachDB / build, createSQLiteBuildDB) behave as specified: C01-C07, C03",
         "'same task callbacks, executions, results and persisted state as the C++ interface' is decided by the event-by-event differential stream "
         "(sampled, not proved): identical DSL client logic bound to the C API and to the C++ interface, identical ops and completion schedules, "
@@ -209,7 +269,8 @@ class Check(PropertyCheck):
         "SQLite file in both modes; keys, values, epochs and dependency keys are read through db.h (llb_database_open / get_keys / "
         "lookup_rule_result / get_epoch) in capi mode and through BuildDB::getKeysWithResult in cxx mode",
     ]
-    trusted_base = ["extractor x_capi (clang-14 JSON AST of Core-C-API.cpp)", "harness vc20 (client of the public C API only)",
+    trusted_base = ["extractor x_capi (clang-14 JSON AST of Core-C-API.cpp; callback half: call sites of the CAPI* classes, a small interpreter "
+                    "for the status conversion, the cycle-array builder; text count of callback calls = AST count)", "harness vc20 (client of the public C API only)",
                     "python scenario oracle (one scenario per documented parameter effect)",
                     "harness vengine_capi (one DSL client logic, two bindings; hook-driven completion schedules through llbuild::core::verifEngineHook; "
                     "canonical database dump)",
@@ -326,9 +387,54 @@ class Check(PropertyCheck):
                 out.append("database was not created at the given path")
             return out
         S.append(("attach_db", {"function": "llb_buildengine_attach_db", "parameter": "path/schema_version"}, ops, chk5))
+
+        # 6. optional callback left NULL: is_result_valid absent = the stored result is valid (C20_optional_callbacks_guarded) ------
+        N, DN = b"N" + nul, b"DN" + nul
+        ops = [rule(N, value=val) + " novalid=1", rule(DN, ins=[N]), "engine new", "build " + hx(DN), "build " + hx(DN), "engine destroy"]
+
+        def chk6(tr):
+            b1, b2 = tr[3], tr[4]
+            out = []
+            if b1.ran(N) != 1 or b1.ran(DN) != 1:
+                out.append("first build did not run both tasks once: " + b1.line)
+            if b2.ran(N) != 0 or b2.ran(DN) != 0:
+                out.append("a rule whose is_result_valid is NULL was re-run %d time(s) (its dependent %d) in a build where nothing changed: "
+                           "NULL must mean 'the result is valid'" % (b2.ran(N), b2.ran(DN)))
+            if b2.result != DN + b"(" + val + b")":
+                out.append("result bytes differ: %r" % b2.result)
+            return out
+        S.append(("is_result_valid=NULL", {"function": "llb_rule_t.is_result_valid", "parameter": "NULL"}, ops, chk6))
         return S
 
+    def diagnose(self, ctx, res):
+        """the proof step failed: say which theorem (by name) no longer holds"""
+        self.broken_decls = []
+        if getattr(ctx, "model_ok", True):
+            return
+        try:
+            self.broken_decls = failing_declarations(self.module)
+        except Exception as e:
+            C.log("C20: could not attribute the Lean errors: %s" % e)
+        names = []
+        for d in self.broken_decls:
+            if d["name"] not in names:
+                names.append(d["name"])
+            C.log("C20: %s %s no longer holds (%s:%d): %s" % ("THEOREM" if d["name"] in self.theorems else "declaration", d["name"],
+                                                             d["file"], d["line"], d["message"][:300]))
+        res.extra["theorems_failing"] = [n for n in names if n in self.theorems]
+        res.extra["declarations_failing"] = self.broken_decls[:12]
+
     def correspond(self, ctx, res):
+        self.diagnose(ctx, res)
+        try:
+            self.correspond_impl(ctx, res)
+        finally:
+            # a concrete divergence found below comes with the names of the theorems the same tree falsifies
+            if res.extra.get("theorems_failing"):
+                for f in res.oracle_failures:
+                    f.setdefault("theorems_failing", res.extra["theorems_failing"])
+
+    def correspond_impl(self, ctx, res):
         exe = ctx.exe[("vc20", "plain")]
         dbdir = os.path.join(C.BUILD, "scratch", "c20-%d" % os.getpid())
         os.makedirs(dbdir, exist_ok=True)
@@ -385,7 +491,8 @@ class Check(PropertyCheck):
         res.samples.append({"scenario": scen[0][0], "ops": scen[0][2]})
         res.rule = ("forwarding table: generated for all exported llb_buildengine_* functions and compared with the documented table by the "
                     "theorem (finite, complete). Scenarios through the public C API: one per documented parameter effect (force_change true/false, "
-                    "must_follow, needs_input with input ids, discovered dependency reported/not, attach_db same/different schema version/no db), keys "
+                    "must_follow, needs_input with input ids, discovered dependency reported/not, attach_db same/different schema version/no db, "
+                    "is_result_valid left NULL), keys "
                     "and values with NUL/0xFF bytes, plus seeded force_change chains. Non-trivial = scenarios executed to the end. "
                     "Event stream: seeded DSL programs (4-12 keys; thorough 4-17; static, value-dependent dynamic, must-follow and discovered requests, "
                     "always/never/flag validity, forced and deferred completions, 1/6 cyclic, 1/3 with discovered dependencies on derived rules) x "
@@ -535,7 +642,11 @@ class Check(PropertyCheck):
         shutil.rmtree(scratch, ignore_errors=True)
 
     def search(self, ctx, res, why):
-        return   # the scenarios are the directed search: every documented parameter has one
+        # the scenarios are the directed search: every documented parameter has one.  What is added here: the replay file of a
+        # broken proof step names the theorems, not only the module
+        for d in getattr(self, "broken_decls", []):
+            why.append({"kind": "theorem-fails" if d["name"] in self.theorems else "declaration-fails", "name": d["name"],
+                        "detail": "%s:%d: %s" % (d["file"], d["line"], d["message"])})
 
 
 CHECK = Check()
